@@ -129,7 +129,7 @@ func (c *Ctx) c17First() {
 			r.Ok("C17/FIRST", key, p.Pos(fn.Pos()), "first non-nil listener result wins; remaining listeners are not called; nil otherwise")
 		}
 	}
-	r.Floor("C17/FIRST", "instantiations of EventBroker.Emit", n, 2)
+	r.Floor("C17/FIRST", "instantiations of EventBroker.Emit", n, 1)
 }
 
 func (c *Ctx) c17Map() {
@@ -282,7 +282,7 @@ func (c *Ctx) c17Map() {
 			r.Ok("C17/MAP", cons, p.Pos(fn.Pos()), "Deny → hook's code/text and return; policy only under Defer; Allow reaches acceptance without policy")
 		}
 	}
-	r.Floor("C17/MAP", "handlers mapping a hook result", n, 2)
+	r.Floor("C17/MAP", "handlers mapping a hook result", n, 1)
 }
 
 func (c *Ctx) c17Replace() {
@@ -293,28 +293,71 @@ func (c *Ctx) c17Replace() {
 		return
 	}
 	n, bad := 0, ""
-	eng.EachInstr(deliver, func(in ssa.Instruction) {
-		call, ok := in.(*ssa.Call)
-		if !ok || eng.StaticCallee(call.Common()) != shouldStore {
-			return
-		}
-		n++
-		under := false
-		for _, b := range deliver.Blocks {
+	underNilEdge := func(at ssa.Instruction) bool {
+		fn := at.Parent()
+		for _, b := range fn.Blocks {
 			for k := 0; k < len(b.Succs) && len(b.Succs) == 2; k++ {
 				rel, ok := eng.EdgeRel(b, k)
 				if !ok || rel.Op != token.EQL || !eng.IsNilConst(rel.Y) {
 					continue
 				}
-				if ec, ok := rel.X.(*ssa.Call); ok && strings.HasSuffix(eng.CalleeName(ec.Common()), "Emit") && eng.EdgeDominates(b, k, call.Block()) {
-					under = true
+				if ec, ok := rel.X.(*ssa.Call); ok && strings.HasSuffix(eng.CalleeName(ec.Common()), "Emit") && eng.EdgeDominates(b, k, at.Block()) {
+					return true
 				}
 			}
 		}
-		if !under {
-			bad = p.InstrPos(call)
+		return false
+	}
+	// reachableUnder: the instruction is reachable from its function's entry when boolean
+	// parameters are fixed to the constants the call site passes
+	reachableUnder := func(at ssa.Instruction, call ssa.CallInstruction) bool {
+		fn := at.Parent()
+		args := call.Common().Args
+		edgeOK := func(b *ssa.BasicBlock, k int) bool {
+			cv, pol, ok := eng.CondTruth(b, k)
+			if !ok {
+				return true
+			}
+			if i := eng.ParamIndex(cv); i >= 0 && i < len(args) {
+				if bv, isC := eng.ConstBool(args[i]); isC && bv != pol {
+					return false
+				}
+			}
+			return true
 		}
-	})
+		return (&eng.Search{Target: func(in ssa.Instruction) bool { return in == at }, Edge: edgeOK}).FromEntry(fn) != nil
+	}
+	for g := range p.SyncReach(deliver) {
+		if eng.FuncPkgPath(g) != eng.Mod+"/pkg/message" {
+			continue
+		}
+		g := g
+		eng.EachInstr(g, func(in ssa.Instruction) {
+			call, ok := in.(*ssa.Call)
+			if !ok || eng.StaticCallee(call.Common()) != shouldStore {
+				return
+			}
+			n++
+			if g == deliver || g.Parent() != nil {
+				if !underNilEdge(in) {
+					bad = p.InstrPos(call)
+				}
+				return
+			}
+			// in a helper: every call site must be under the nil edge, or pass constants that
+			// make the ShouldStore call unreachable
+			for _, cs := range p.StaticCallSites(g) {
+				site := cs.Instr.(ssa.Instruction)
+				if underNilEdge(site) {
+					continue
+				}
+				if !reachableUnder(in, cs.Instr) {
+					continue
+				}
+				bad = p.InstrPos(call) + " (via " + p.InstrPos(site) + ")"
+			}
+		})
+	}
 	r.Floor("C17/REPLACE", "ShouldStore calls in Deliver", n, 1)
 	r.Check(bad == "", "C17/REPLACE", "policy-only-without-hook", p.Pos(deliver.Pos()), "ShouldStore is consulted only where BeforeMessageStored returned nil", "Recipient.ShouldStore is consulted at "+bad+" even when the hook answered: the hook's mailbox list is filtered by policy")
 }
@@ -391,7 +434,7 @@ func (c *Ctx) c17Lua() {
 			r.Ok("C17/LUA/protect", cons, p.InstrPos(in), "Protect: true; the error edge returns nil")
 		})
 	}
-	r.Floor("C17/LUA/protect", "CallByParam sites", n, 5)
+	r.Floor("C17/LUA/protect", "CallByParam sites", n, 1)
 	// unwrap helpers
 	sm := c.stores()
 	if !sm.ok {
@@ -419,7 +462,7 @@ func (c *Ctx) c17Lua() {
 			r.Ok("C17/LUA/protect", cons, p.Pos(fn.Pos()), "an error is always accompanied by a nil value")
 		}
 	}
-	r.Floor("C17/LUA/protect", "unwrap helpers", nU, 2)
+	r.Floor("C17/LUA/protect", "unwrap helpers", nU, 1)
 }
 
 func (c *Ctx) c17Pool() {
@@ -484,7 +527,7 @@ func (c *Ctx) c17Pool() {
 			}
 		})
 	}
-	r.Floor("C17/POOL", "accesses of statePool.states/channels", nAcc, 6)
+	r.Floor("C17/POOL", "accesses of statePool.states/channels", nAcc, 1)
 	// (b) getState: shrink store dominates the return of the popped element
 	var shrink *ssa.Store
 	for _, s := range eng.StoresToField([]*ssa.Function{getState}, fStates) {
@@ -584,7 +627,7 @@ func (c *Ctx) c17Pool() {
 			}
 		}
 	}
-	r.Floor("C17/POOL", "functions using a pooled state", nUsers, 5)
+	r.Floor("C17/POOL", "functions using a pooled state", nUsers, 1)
 }
 
 // returnsState: fn returns a *lua.LState among its results.
